@@ -281,7 +281,7 @@ func (c *Ctx) ruleMessageStores(r1, r2, r3 *RuleRep) *ssa.Function {
 				}
 			}
 			if tn == "Subscription" && !c.freshBase(fa) {
-				if f == c.Func("subscribeImpl") && fld.Name() == "QoS" {
+				if _, isImpl := c.subscribeImpls()[f]; (isImpl || f == c.Func("subscribeImpl")) && fld.Name() == "QoS" {
 					return // SUBACK copy-back, R-C07-5
 				}
 				zero2++
